@@ -53,7 +53,7 @@ def build(seed):
     for mi in range(nmods):
         mod = f"cm{sx}_{mi}"
         modnames.append(mod)
-        L = [f"module {mod}", doc(), "implicit none"]
+        L = [doc(), "", f"module {mod}", doc(), "implicit none"]  # (the first comment documents the file itself)
         contains = []
         # same procedure name in several modules, possibly differing only in letter case
         if rng.random() < 0.8:
